@@ -151,6 +151,10 @@ func decryptData(v keyCripto, password string) ([]byte, error) {
 	if err != nil {
 		return nil, err
 	}
+	// the derived key's length is the key file's dklen
+	if len(derivedKey) < 32 {
+		return nil, fmt.Errorf("unsupported derived key length: %d", len(derivedKey))
+	}
 	calculatedMAC := sha3.Sum256(append(derivedKey[16:32], cipherText...))
 	if !bytes.Equal(calculatedMAC[:], mac) {
 		// if this fails we might be trying to load an ethereum V3 keyfile
@@ -178,6 +182,10 @@ func aesCTRXOR(key, inText, iv []byte) ([]byte, error) {
 	aesBlock, err := aes.NewCipher(key)
 	if err != nil {
 		return nil, err
+	}
+	// NewCTR panics on any other length, and the IV comes from the key file
+	if len(iv) != aesBlock.BlockSize() {
+		return nil, fmt.Errorf("invalid IV length: %d", len(iv))
 	}
 	stream := cipher.NewCTR(aesBlock, iv)
 	outText := make([]byte, len(inText))
